@@ -224,6 +224,7 @@ pub fn run_race(ctx: &mut Ctx, bytes: &[u8], force_shifting: bool) -> Result<boo
     let mut stream: Vec<u8> = vec![];
     let mut expected: Vec<(i64, &'static str, Value, usize)> = vec![]; // id, kind, expected, version
     let mut version = 0usize;
+    let mut noops = 0usize;
     let mut k = 0usize;
     let mut msg_bounds = vec![0usize];
     let bursts = 2 + c.below(6);
@@ -296,8 +297,27 @@ pub fn run_race(ctx: &mut Ctx, bytes: &[u8], force_shifting: bool) -> Result<boo
             };
             stream.extend(Lsp::frame(&json!({"jsonrpc": "2.0", "method": "textDocument/didChange", "params": {"textDocument": {"uri": uri, "version": version + 1}, "contentChanges": change}})));
             msg_bounds.push(stream.len());
+            // now and then a notification that changes nothing follows (clients send one to bump the
+            // version, on save, or when an edit is undone within one batch): no content changes at
+            // all, the same text again, or an empty replacement.  Decided by the stream's hash, so
+            // that older streams keep their meaning.
+            let hn = crate::engine::choices::mix64(hsched ^ (version as u64).wrapping_mul(0x9e3779b97f4a7c15));
+            if hn % 5 == 0 {
+                version += 1;
+                let noop = match (hn >> 8) % 3 {
+                    0 => json!([]),
+                    1 => json!([{"text": text}]),
+                    _ => json!([{"range": {"start": {"line": 0, "character": 0}, "end": {"line": 0, "character": 0}}, "text": ""}]),
+                };
+                stream.extend(Lsp::frame(&json!({"jsonrpc": "2.0", "method": "textDocument/didChange", "params": {"textDocument": {"uri": uri, "version": version + 1}, "contentChanges": noop}})));
+                msg_bounds.push(stream.len());
+                noops += 1;
+            }
         }
         log.push(format!("{} edits -> v{}", nedit, version));
+    }
+    if noops > 0 {
+        ctx.class("race with notifications that change nothing");
     }
     // a final batch for the final version
     for kind in ["textDocument/hover", "textDocument/references", "textDocument/completion"] {
